@@ -228,11 +228,11 @@ func (cx *c09ctx) checkCompose(s string) {
 	switch {
 	case pan:
 		r.Fail("compose/panic", "Compose panicked", in, "panic", "a message or ErrShortMessageTooLarge")
-		r.Case(in, fmt.Sprintf("compose_out_eq (compose %s) Panic", coqRunes(runes)))
+		r.Case(in, fmt.Sprintf("compose_obs_ok %s Panic", coqRunes(runes)))
 		return
 	case isTooLarge(err):
 		r.Count(in, true, "compose: does not fit one message")
-		r.Case(in, fmt.Sprintf("compose_out_eq (compose %s) (Err ESize)", coqRunes(runes)))
+		r.Case(in, fmt.Sprintf("compose_obs_ok %s (Err ESize)", coqRunes(runes)))
 		return
 	case err != nil:
 		c := coding.BestCoding(s)
@@ -245,11 +245,11 @@ func (cx *c09ctx) checkCompose(s string) {
 				in, fmt.Sprintf("error %v", err), "a composed message")
 		}
 		r.Count(in, true, "compose: encoder error")
-		r.Case(in, fmt.Sprintf("compose_out_eq (compose %s) (Err EText)", coqRunes(runes)))
+		r.Case(in, fmt.Sprintf("compose_obs_ok %s (Err EText)", coqRunes(runes)))
 		return
 	}
 	r.Count(in, len(s) > 0, "compose: "+labelName(m.DataCoding))
-	r.Case(in, fmt.Sprintf("compose_out_eq (compose %s) (Ok (%d, %s))", coqRunes(runes), byte(m.DataCoding), coqHex(m.Message)))
+	r.Case(in, fmt.Sprintf("compose_obs_ok %s (Ok (%d, %s))", coqRunes(runes), byte(m.DataCoding), coqHex(m.Message)))
 	var back string
 	var perr error
 	pan, _ = guard(func() { back, perr = m.Parse() })
